@@ -28,10 +28,12 @@ FieldOrder == [kind |-> 0, k |-> 0, op |-> 0, mode |-> 0, ok |-> 0, tag |-> 0, i
 CONSTANTS Shapes,     \* subset of {"flat","nest1","nest1l","nest2","sib","bare","bare2","barel"}
           Wrap1,      \* wrappers of the first placement
           Wrap2,      \* wrappers of the second placement ({} = at most one placement)
+          PairShapes, \* shapes that get a second placement
           Reqs,       \* "required" flags of the first placement
           ExtraNs,    \* namespaces applied although no reference uses them
           InlineK,    \* unrolling depth of Inline
-          RawD,       \* nesting depth of the generated inputs
+          RawD,       \* nesting depth of the generated inputs (InlineSame)
+          RawX,       \* nesting depth of the exported inputs
           EmitInl     \* export the inlined tree too (the harness checks its own inliner against it)
 VARIABLE params
 
@@ -105,14 +107,14 @@ Places(shape, W, Q) ==
                w \in W, tg \in Targets(h[1], shape), q \in Q} : h \in Hosts(shape)}
 
 \* ------------------------------------------------------------------ behaviours
+AppliedNs(P) == ({P[i].ns : i \in DOMAIN P} \ {""}) \cup ExtraNs
 Init ==
     \E shape \in Shapes : \E p1 \in Places(shape, Wrap1, Reqs) :
-    \E p2 \in Places(shape, Wrap2, {FALSE}) \cup {NoPlace} :
+    \E p2 \in (IF shape \in PairShapes THEN Places(shape, Wrap2, {FALSE}) ELSE {}) \cup {NoPlace} :
         /\ params = [shape |-> shape, P |-> <<p1, p2>>]
-        /\ InitState(TreeOf(shape, <<p1, p2>>), ExtMC)
+        /\ InitState(TreeOf(shape, <<p1, p2>>), ExtMC, AppliedNs(<<p1, p2>>))
 
-NsAll == Namespaces \cup ExtraNs
-Next == /\ \E a \in Acts(NsAll) : Do(a)
+Next == /\ \E a \in Acts : Do(a)
         /\ UNCHANGED params
 Spec == Init /\ [][Next]_<<vars, params>>
 View == <<params, link, tab, cov, built>>
@@ -120,23 +122,24 @@ HistBound == Len(hist) <= 40
 
 \* ------------------------------------------------------------------ model properties
 WellFormedInv == hist = <<>> => WellFormed(tree, ext)
-OrderIndependent == OrderIndependentOver(NsAll)
 Canonical == Uniform /\ \A n \in Namespaces : NsTab[n] = Canon[n]
 InlineSame == Canonical => InlineSameAt(InlineK, RawD)
 Untouched == OtherNamespacesUntouched
 
 \* ------------------------------------------------------------------ export
-VRs(lk) == [g \in {s.tag : s \in TreeScopes} |-> VR(ScopeByTag(g), lk)]
+VRs(lk) == [g \in ix.tscopes |-> VR(ScopeByTag(g), lk)]
 Diff(l1, l2) == [g \in {x \in DOMAIN l1 : l1[x] # l2[x]} |-> l2[g]]
 NextOf == {[act |-> a, diff |-> Diff(link, LinkAfter(link, a)), vr |-> VRs(LinkAfter(link, a))] :
-              a \in {x \in Acts(NsAll) : CanDo(x, built)}}
-RawTable == LET RL == RLink(link, ObjFn) IN {[raw |-> r, exp |-> Unser(tree, r, tree, RL, {})] : r \in Raws(RawD)}
+              a \in {x \in Acts : CanDo(x, built)}}
+RawTable == LET RL == RLink(link, ObjFn) IN {[raw |-> r, exp |-> Unser(tree, r, tree, RL, {})] : r \in Raws(RawX)}
 
+\* every line stays short: several TLC workers append to one file, and only short appends are atomic
 Export ==
-    LET base == [tid |-> params, hist |-> hist, link |-> link, vr |-> VRs(link), next |-> NextOf]
-    IN /\ Emit(base)
-       /\ hist = <<>> => Emit([tid |-> params, tree |-> tree, ext |-> ext])
-       /\ Canonical =>
-            Emit([tid |-> params, nstab |-> NsTab, k |-> InlineK, raws |-> RawTable,
+    /\ Emit([tid |-> params, hist |-> hist, link |-> link, vr |-> VRs(link), next |-> NextOf])
+    /\ hist = <<>> => Emit([tid |-> params, tree |-> tree, ext |-> ext])
+    /\ Canonical =>
+         LET rt == RawTable IN
+         /\ Emit([tid |-> params, nstab |-> NsTab, k |-> InlineK, nraws |-> Cardinality(rt),
                   inl |-> IF EmitInl THEN <<Inline(tree, tree, InlineK, RLex(ext, NsTab))>> ELSE <<>>])
+         /\ \A x \in rt : Emit([tid |-> params, raw |-> x.raw, exp |-> x.exp])
 =============================================================================
